@@ -843,6 +843,81 @@ def _thread_flags(fnode):
     return changed
 
 
+def _fold_tuple_temps(fnode):
+    """T = (a, b) ; ... T[0] ...   (T bound once to a tuple of plain names / constants that are not re-bound afterwards, every use a
+    constant subscript)  ->  the element itself.  Left behind by inlining a helper that returns a pair of which one part is used."""
+    changed = False
+    for a in [n for n in ast.walk(fnode) if isinstance(n, ast.Assign)]:
+        if not (len(a.targets) == 1 and isinstance(a.targets[0], ast.Name) and isinstance(a.value, ast.Tuple)
+                and all(isinstance(e, (ast.Name, ast.Constant)) for e in a.value.elts)):
+            continue
+        t = a.targets[0].id
+        stores = [n for n in ast.walk(fnode) if isinstance(n, ast.Name) and n.id == t and isinstance(n.ctx, ast.Store)]
+        loads = [n for n in ast.walk(fnode) if isinstance(n, ast.Name) and n.id == t and isinstance(n.ctx, ast.Load)]
+        if len(stores) != 1 or not loads:
+            continue
+        subs = [getattr(n, "_parent", None) for n in loads]
+        if not all(isinstance(s, ast.Subscript) and isinstance(s.slice, ast.Constant) and isinstance(s.slice.value, int)
+                   and -len(a.value.elts) <= s.slice.value < len(a.value.elts) and isinstance(s.ctx, ast.Load) for s in subs):
+            continue
+        holder = getattr(a, "_parent", None)
+        body = None
+        for fld in ("body", "orelse", "finalbody"):
+            if isinstance(getattr(holder, fld, None), list) and a in getattr(holder, fld):
+                body = getattr(holder, fld)
+        if body is None:
+            continue
+        # the elements must not be re-bound between the tuple and its uses: require that they are not stored to after `a` in this list
+        after = body[body.index(a) + 1:]
+        names = {e.id for e in a.value.elts if isinstance(e, ast.Name)}
+        if any(isinstance(n, ast.Name) and n.id in names and isinstance(n.ctx, ast.Store) for s in after for n in ast.walk(s)):
+            continue
+        if not all(any(s is x for st in after for x in ast.walk(st)) for s in subs):
+            continue
+        for s in subs:
+            e = a.value.elts[s.slice.value]
+            par = getattr(s, "_parent", None)
+            new = ast.copy_location(clone(e), s)
+            for fld, val in ast.iter_fields(par):
+                if val is s:
+                    setattr(par, fld, new)
+                elif isinstance(val, list):
+                    for i_, v_ in enumerate(val):
+                        if v_ is s:
+                            val[i_] = new
+        body.remove(a)
+        changed = True
+        for n in ast.walk(fnode):
+            for c in ast.iter_child_nodes(n):
+                c._parent = n
+    return changed
+
+
+def _rename_param_copies(fnode):
+    """N2 = N as a leading statement, N a parameter that is mentioned nowhere else  ->  N2 is N.  (Left behind when an inlined helper
+    re-binds its own parameter: the inliner copies the argument first.)"""
+    params = {a.arg for a in fnode.args.args + fnode.args.kwonlyargs}
+    changed = False
+    for s in list(fnode.body):
+        if isinstance(s, ast.Expr) and isinstance(s.value, ast.Constant):
+            continue
+        if isinstance(s, (ast.Import, ast.ImportFrom)):
+            continue
+        if isinstance(s, ast.Assign) and len(s.targets) == 1 and isinstance(s.targets[0], ast.Name) and isinstance(s.value, ast.Name) \
+                and s.value.id in params and s.targets[0].id not in params:
+            n2, n = s.targets[0].id, s.value.id
+            others = [x for x in ast.walk(fnode) if isinstance(x, ast.Name) and x.id == n and x is not s.value]
+            if not others:
+                for x in ast.walk(fnode):
+                    if isinstance(x, ast.Name) and x.id == n2:
+                        x.id = n
+                fnode.body.remove(s)
+                changed = True
+                continue
+        break
+    return changed
+
+
 def _inline_name_copies(fnode):
     """t = y  (two plain names, each bound exactly once in the function, t read exactly once): the read of t is a read of y"""
     loads, stores = {}, {}
@@ -1407,6 +1482,16 @@ class Flattener:
                     oc = fi.module.classes[b[1].func.id]
                     mi = oc.methods.get(name)
                     if mi is not None and not mi.is_staticmethod and not mi.is_classmethod:
+                        cand = mi
+                        recv = f.value
+            if cand is None and ci is not None and base not in ("self", "cls", ci.name) and name.startswith("_") and not name.startswith("__"):
+                # other._helper(...) inside a method of the class that alone defines the private `_helper`: the receiver is
+                # another instance of this class (private names are not part of anybody else's interface)
+                owners = [c_ for c_ in fi.module.classes.values() if name in c_.methods]
+                if len(owners) == 1 and owners[0] is ci and not any(
+                        name in m_.functions and m_.functions[name].cls is None for m_ in [fi.module]):
+                    mi = ci.methods[name]
+                    if not mi.is_staticmethod and not mi.is_classmethod:
                         cand = mi
                         recv = f.value
             if cand is None and ci is not None and base in ("self", "cls", ci.name):
@@ -2280,6 +2365,13 @@ class Flattener:
         for _ in range(6):
             if not _thread_flags(fi.node):
                 break
+            any_change = True
+        for n_ in ast.walk(fi.node):
+            for c_ in ast.iter_child_nodes(n_):
+                c_._parent = n_
+        if _fold_tuple_temps(fi.node):
+            any_change = True
+        if _rename_param_copies(fi.node):
             any_change = True
         from .bitnorm import canon_bit_allocation
         if canon_bit_allocation(fi.node):
